@@ -37,3 +37,16 @@ Definition judge (c : case) : verdict :=
 Definition judge_all (cs : list case) : list (N * N * N) := judge_list judge cs.
 Definition tag (c : case) : N := kind c * 10 + outcome c.
 Definition judge_all_tags (cs : list case) : list N := map tag cs.
+
+(** Runs that stay up while the cache is deleted and other runs start on the same path: each keeps
+    presenting the key pair it started with (its pin was advertised once, at start). *)
+Record lcase := mkl { l_started : list bytes; l_served : list bytes }.
+Fixpoint same_keys (a b : list bytes) : bool :=
+  match a, b with
+  | [], [] => true
+  | x :: a', y :: b' => beq x y && same_keys a' b'
+  | _, _ => false
+  end.
+Definition judge_up (cs : list lcase) : list (N * N * N) :=
+  judge_list (fun c => first_fail [ (same_keys (l_started c) (l_served c), v_violation 7) ]) cs.
+Definition judge_up_tags (cs : list lcase) : list N := map (fun c => N.of_nat (length (l_started c))) cs.
